@@ -141,13 +141,13 @@ func wrongPass(r *mrand.Rand, right []byte, nonEmpty bool, cstr ...bool) []byte 
 }
 
 func randData(r *mrand.Rand) []byte {
-	switch r.IntN(8) {
-	case 0:
+	switch r.IntN(24) {
+	case 0, 1, 2:
 		return []byte{}
-	case 1:
+	case 3, 4, 5:
 		return mon.Bytes(r, 1)
-	case 2:
-		return mon.Bytes(r, 70000)
+	case 6:
+		return mon.Bytes(r, 20000)
 	}
 	return mon.Bytes(r, 1+r.IntN(200))
 }
@@ -196,6 +196,9 @@ func (w *world) randomOp(r *mrand.Rand) hop {
 		switch x := r.IntN(100); {
 		case x < 22:
 			h := hop{kind: agentmodel.Add, p: p, key: mon.Pick(r, w.keys), comment: randComment(r), edPtr: r.IntN(2) == 0}
+			if w.nonEmptyPass { // OpenSSH peer: comments are C strings too
+				h.comment = string(noNUL([]byte(h.comment)))
+			}
 			if r.IntN(10) < 4 {
 				if w.sleep != nil {
 					h.life = mon.Pick(r, lifetimes)
@@ -604,6 +607,8 @@ func (w *world) finish(r *mrand.Rand) {
 	w.m.Count("sequences_completed", 1)
 }
 
+var slowKeys = map[string]bool{"rsa2048": true, "rsa2048-cert": true, "dsa": true, "dsa-cert": true, "ecdsa384": true, "ecdsa521": true, "ecdsa521-cert": true}
+
 // chooseUniverse picks 1..5 keys (mixed types, certificates next to their
 // plain keys) for a sequence.
 func chooseUniverse(r *mrand.Rand, pool []*testKey, minKeys int, fast bool) (keys, others []*testKey) {
@@ -621,7 +626,7 @@ func chooseUniverse(r *mrand.Rand, pool []*testKey, minKeys int, fast bool) (key
 	}
 	if r.IntN(3) == 0 { // a certificate together with its plain key
 		for _, i := range perm {
-			if pool[i].isCert {
+			if pool[i].isCert && !(fast && slowKeys[pool[i].name] && r.IntN(6) != 0) {
 				base := pool[i].name[:len(pool[i].name)-5]
 				for _, b := range pool {
 					if b.name == base {
@@ -634,8 +639,8 @@ func chooseUniverse(r *mrand.Rand, pool []*testKey, minKeys int, fast bool) (key
 		}
 	}
 	for _, i := range perm {
-		if fast && (pool[i].name == "rsa2048" || pool[i].name == "rsa2048-cert") && r.IntN(4) != 0 {
-			continue
+		if fast && slowKeys[pool[i].name] && r.IntN(6) != 0 {
+			continue // expensive under the race detector: present, but less often
 		}
 		add(pool[i])
 	}
@@ -701,7 +706,7 @@ func oneSequence(m *mon.M, r *mrand.Rand, pool []*testKey, idx int64, motif, mod
 		} else {
 			ag = agent.NewClient(c)
 		}
-		return &path{name: name, ag: ag, viaList: true, tap: c.w, tapFn: c.w.frames, extWrap: true}
+		return &path{name: name, ag: ag, viaList: true, tap: c.w, extWrap: true}
 	}
 	direct := &path{name: "direct", ag: kr}
 	switch mode {
